@@ -3,6 +3,7 @@
 
 mod c22;
 mod c23;
+mod c23w;
 mod c25;
 mod io;
 
